@@ -121,7 +121,8 @@ Inductive tact :=
                                  if set { unlock everything; return } else set it *)
 | TWake (c : chan)            (* under the handler lock: replace the wake-up channel by a fresh one and close the
                                  replaced one — the CURRENT channel stays open (icmp6 RA) *)
-| TSendIfOpen (f : field) (c : chan). (* if !flag { select { case c <- v: default: } } : non-blocking, skipped once closed *)
+| TSendIfOpen (f : field) (c : chan) (* if !flag { select { case c <- v: default: } } : non-blocking, skipped once closed *)
+| TRecv (c : chan).           (* blocking receive / select without default that waits on c (and a timer) *)
 
 (* a template: prologue, a section repeated for each row of the instance, epilogue *)
 Record tmpl := { t_pre : list tact; t_each : list tact; t_post : list tact }.
@@ -151,7 +152,8 @@ Inductive action :=
 | Again
 | Once (x : loc)
 | Wake (c : chan)
-| SendIfOpen (x : loc) (c : chan).
+| SendIfOpen (x : loc) (c : chan)
+| Recv (c : chan).
 
 Definition ilock (r : nat) (c : lockc) : lock := (c, if per_row_lock c then r else 0).
 Definition iloc (r : nat) (f : field) : loc := (f, if per_row_field f then r else 0).
@@ -175,6 +177,7 @@ Definition inst1 (r : nat) (a : tact) : action :=
   | TOnce f => Once (iloc r f)
   | TWake c => Wake c
   | TSendIfOpen f c => SendIfOpen (iloc r f) c
+  | TRecv c => Recv c
   end.
 Definition inst (r : nat) (l : list tact) : list action := map (inst1 r) l.
 
@@ -255,7 +258,7 @@ Definition step (s : state) (i : nat) : option state :=
       | Acq l m =>
           if can_acquire (threads s) i t l m then Some (upd s i (with_held t ((l, m) :: held t) r)) else None
       | Rel l => Some (upd s i (with_held t (remove_lock l (held t)) r))
-      | Rd _ | Wr _ | ARd _ | AWr _ | LenCap _ | Wake _ => Some (upd s i (with_rest t r))
+      | Rd _ | Wr _ | ARd _ | AWr _ | LenCap _ | Wake _ | Recv _ => Some (upd s i (with_rest t r))
       | Once x =>
           if flag_set s x then Some (upd s i (with_held t [] []))
           else Some {| threads := set_thread i (with_rest t r) (threads s); closedch := closedch s;
@@ -426,13 +429,14 @@ Fixpoint close_after_once_aux (seen : bool) (c : chan) (f : field) (acts : list 
   end.
 Definition close_after_once (t : tmpl) (c : chan) (f : field) : bool := close_after_once_aux false c f (flat t).
 
-(* every (blocking) send happens with no lock held *)
+(* every BLOCKING channel operation (send outside a select-with-default, receive / select without default)
+   happens with no lock held; non-blocking ones (TSendIfOpen, close, the wake-up swap) may hold locks *)
 Fixpoint sends_unlocked (h : list (lockc * mode)) (acts : list tact) : bool :=
   match acts with
   | [] => true
   | TAcq c m :: r => sends_unlocked ((c, m) :: h) r
   | TRel c :: r => sends_unlocked (cremove c h) r
-  | TSend _ :: r => match h with [] => sends_unlocked h r | _ => false end
+  | TSend _ :: r | TRecv _ :: r | TExitIfClosed _ :: r => match h with [] => sends_unlocked h r | _ => false end
   | _ :: r => sends_unlocked h r
   end.
 
@@ -442,4 +446,4 @@ Arguments TAcq {op}. Arguments TRel {op}. Arguments TRd {op}. Arguments TWr {op}
 Arguments TARd {op}. Arguments TAWr {op}. Arguments TSend {op}. Arguments TLenCap {op}.
 Arguments TCloseCh {op}. Arguments TSpawn {op}. Arguments TExitIfClosed {op}.
 Arguments TExitIfFlag {op}. Arguments TSetFlag {op}. Arguments TAgain {op}.
-Arguments TOnce {op}. Arguments TWake {op}. Arguments TSendIfOpen {op}.
+Arguments TOnce {op}. Arguments TWake {op}. Arguments TSendIfOpen {op}. Arguments TRecv {op}.
